@@ -50,6 +50,8 @@ EmitOK(e) ==
   /\ Seq1(e.hooks) = UserHooks(s.hooks)                          \* its own hooks, once each, in registration order
   /\ Seq1(e.hookobs) = s.hooks                                   \* what the event shows of them: user and library hooks (time, caller) interleaved as registered
   /\ \A k \in 1..Len(e.hookctx) : e.hookctx[k] = s.goctx         \* hooks see the logger's Go context (0 = background)
+  /\ \A k \in 1..Len(e.hookctxnil) : e.hookctxnil[k] = 0          \* ... unless the event overrides it: Ctx(nil) is "no context"
+  /\ \A k \in 1..Len(e.hookctxset) : e.hookctxset[k] = 99         \* ... and Ctx(c) is c
   /\ \A k \in 1..Len(e.nested) : e.nested[k] \in {0, s.goctx}    \* nested marshalers: own context or background, never a stale one
   /\ e.dest = s.dest                                             \* Output changes the destination and nothing else
   /\ e.debug = (s.level <= 0) /\ e.info = (s.level <= 1)         \* its own level
